@@ -432,6 +432,42 @@ def check_placeholder(case, ctx: Ctx):
     ctx.rec.label("placeholder:%s:%s" % ("dangling" if case["dangling"] else "valid", case["route"]))
 
 
+def check_unused_chain(case, ctx: Ctx):
+    """"an undefined variable is rejected": also when it is only reachable through the value of another variable that
+    no option of the component uses."""
+    comp = {"stage": 0, "name": "a", "command": {"executable": "echo", "arguments": "hi"}}
+    doc = {"components": [comp]}
+    value = "hi-%(suffix)s"
+    if case["where"] == "component":
+        comp["variables"] = {"message": value}
+    elif case["where"] == "global":
+        doc["variables"] = {"default": {"global": {"message": value}}}
+    else:
+        doc["variables"] = {"default": {"stages": {0: {"message": value}}}}
+    if case["defined"]:
+        doc.setdefault("variables", {}).setdefault("default", {}).setdefault("global", {})["suffix"] = "x"
+    out = load(case["route"], doc, None, ctx)
+    if out[0] == "hang":
+        raise Violation("load-hangs@unused-chain", "%s" % case)
+    if case["defined"]:
+        if out[0] != "accepted":
+            raise Violation("valid-workflow-rejected@unused-variable-chain", "[%s] %s: %s" % (
+                case["route"], type(out[1]).__name__, str(out[1])[:300]))
+    elif out[0] == "accepted":
+        raise Violation("undefined-variable-accepted@only-used-by-unused-variable",
+                        "[%s] variable message=%r (%s level) refers to an undefined variable and the workflow loads" % (
+                            case["route"], value, case["where"]))
+    elif not proper_rejection(case["route"], out[1], None, doc):
+        raise Violation(wrong_exception_sig(case["route"], out[1], out[2], "undefined-variable"),
+                        "[%s] %s: %s" % (case["route"], type(out[1]).__name__, str(out[1])[:300]))
+    ctx.rec.label("unused-chain:%s:%s" % ("defined" if case["defined"] else "undefined", case["route"]))
+
+
+def unused_chain_anchors():
+    return [{"where": w, "route": r, "defined": d} for w in ("component", "global", "stage")
+            for r in ("memory", "memory-primitive", "conf", "experiment") for d in (False, True)]
+
+
 def placeholder_anchors():
     out = []
     for route in ("memory", "memory-primitive", "conf"):
@@ -446,14 +482,16 @@ def placeholder_anchors():
 
 
 def shard(ctx: Ctx):
-    for idx, case in enumerate(placeholder_anchors()):
+    anchors = [("placeholder", check_placeholder, c) for c in placeholder_anchors()] + \
+              [("unused-chain", check_unused_chain, c) for c in unused_chain_anchors()]
+    for idx, (sub, fn, case) in enumerate(anchors):
         if idx % ctx.nshards != ctx.shard or ctx.stop:
             continue
         ctx.rec.evaluations += 1
         try:
-            check_placeholder(case, ctx)
+            fn(case, ctx)
         except Violation as v:
-            v.case, v.sub = case, "placeholder"
+            v.case, v.sub = case, sub
             ctx.rec.violations.append(v.to_dict())
             ctx.stop = True
             return
@@ -462,4 +500,5 @@ def shard(ctx: Ctx):
 
 
 def replay(sub, case, ctx: Ctx):
-    {"valid": check_valid, "fault": check_fault, "placeholder": check_placeholder}[sub or "fault"](case, ctx)
+    {"valid": check_valid, "fault": check_fault, "placeholder": check_placeholder,
+     "unused-chain": check_unused_chain}[sub or "fault"](case, ctx)
